@@ -84,6 +84,8 @@ def act_sexp(a):
         return "(c 1)"
     if k == "badparam":
         return "(c 0)"
+    if k in ("twoa", "twob"):
+        return "(c 1)"
     if k == "c":
         return "(c %d)" % a[1]
     if k in ("skip", "expect", "call"):
@@ -150,6 +152,8 @@ def act_scn(a):
         return "setparam"
     if k == "badparam":
         return "badparam"
+    if k in ("twoa", "twob"):
+        return k
     raise ValueError(a)
 
 
